@@ -442,7 +442,7 @@ func (c15) Run(e *Env) {
 		return (el/flushInterval+1)*flushInterval - el
 	}
 
-	nSteps := e.Range(5, 60)
+	nSteps := e.Range(5, 60*e.Depth())
 	for step := 0; step < nSteps; step++ {
 		e.Settle()
 		absorbReqs()
